@@ -1,16 +1,16 @@
 SPECIFICATION Spec
 CONSTANTS
   Signers = {1, 2, 3}
-  Hashes = {1, 2, 3, 4}
-  MaxAttrs = 3
+  Hashes = {1, 2, 3}
+  MaxAttrs = 2
   CandAttrs = 1
   MaxBlocks = 4
   MaxTxPerBlock = 2
-  MaxTxTotal = 2
+  MaxTxTotal = 3
   Window = 2
   GCLag = 0
   CheckStay = FALSE
   Deviation = "none"
-  GCMode = "trimmed"
+  GCMode = "lenient"
 INVARIANTS InvAnswers InvStay InvProp
 CHECK_DEADLOCK FALSE
